@@ -99,10 +99,11 @@ def p8(ctx, F):
                     defs.append((n, n["r"], n["k"]))
         for n, rhs, kind in defs:
             v = hir.sym_int(hir.fold(hir.resolve_std_ints(hir.resolve_consts(sym(rhs), F)), {})) if kind != "AssignOp" else None
-            ctx.check("C06.P8", "root-bound-starts-at-the-minimum:%s" % name, v is not None and v <= -32767, fn=ENTRY, file=fn["file"], line=hir.line(n),
+            # (exactly the smallest score that can still be negated: the children are searched with -bound as their upper bound)
+            ctx.check("C06.P8", "root-bound-starts-at-the-minimum:%s" % name, v is not None and v == -32767, fn=ENTRY, file=fn["file"], line=hir.line(n),
                       what="the bound a root move must beat to become the best move does not start at the minimum score: when every move "
                            "scores below it the root returns no move although legal moves exist",
-                      expected="Score::MIN + 1 (or lower), assigned nowhere else before the move loop", found=hir.fmt(sym(rhs), 100))
+                      expected="Score::MIN + 1 (= -Score::MAX), assigned nowhere else before the move loop", found=hir.fmt(sym(rhs), 100))
 
 
 def _binder_mode(fn, lid):
